@@ -199,7 +199,7 @@ open Router.Tree
 /-! ### non-vacuity: the hypotheses hold for this program and middleware 3 (handed to group `/g` only),
     and the request `/old` — rewritten to `/g/x` by the Pre middleware — makes it go in -/
 def demo2 : List Op :=
-  [ .pre ⟨1, some ("/old".toList, "/g/x".toList)⟩, .use 2,
+  [ .pre ⟨1, some ("/old".toList, "/g/x".toList), none, none⟩, .use 2,
     .group none "/g".toList [3], .add (some 0) "GET".toList "/x".toList 7 false [4],
     .add none "GET".toList "/other/:id".toList 8 false [] ]
 
